@@ -121,12 +121,13 @@ theorem find?_secmap_ne (l : List (String × List KV)) (s s' : String) (g : List
     rw [if_neg this]
 
 /-- **override**: an existing item (named by any whitespace variant of its key) gets the new value -/
-theorem C14_override_sets (ini : Ini) (s k v : String) (hs : s ≠ "Variables") (h : hasOption currentCfg ini s k = true)
+theorem C14_override_sets (ini : Ini) (s k v : String) (hs : s ≠ "Variables") (hne : s ≠ "") (h : hasOption currentCfg ini s k = true)
     (hown : (lookup ini s k).isSome) :
     ∃ ini', applyOp currentCfg ini (.override s k v) = .ok ini' ∧ lookup ini' s k = some v := by
   have _ := hown
   have hs' : (s == "Variables") = false := by simpa using hs
-  refine ⟨_, by simp only [applyOp, h, hs']; rfl, ?_⟩
+  have hne' : (s == "") = false := by simpa using hne
+  refine ⟨_, by simp only [applyOp, h, hs', hne']; rfl, ?_⟩
   unfold lookup
   dsimp only
   rw [find?_map_pres _ _ _ (fun p => by split <;> rfl)]
@@ -142,10 +143,25 @@ theorem C14_override_sets (ini : Ini) (s k v : String) (hs : s ≠ "Variables") 
 /-- overriding or removing an item that does not exist, adding one that exists: rejected -/
 theorem C14_rejects (ini : Ini) (s k v : String) :
     (hasOption currentCfg ini s k = false → applyOp currentCfg ini (.override s k v) = .error .missing ∧ applyOp currentCfg ini (.remove s k) = .error .missing) ∧
-    (hasOption currentCfg ini s k = true → applyOp currentCfg ini (.add s k v) = .error .exists) := by
+    (hasOption currentCfg ini s k = true → s ≠ "" → applyOp currentCfg ini (.add s k v) = .error .exists) := by
   constructor
   · intro h; simp [applyOp, h]
-  · intro h; simp [applyOp, h]
+  · intro h hne; simp [applyOp, h, hne]
+
+/-- **no section without a name**: an item written `:KEY` does not exist - overriding it is rejected whatever the file holds … -/
+theorem C14_empty_section_override (c : IniCfg) (ini : Ini) (k v : String) :
+    applyOp c ini (.override "" k v) = .error .missing := by
+  simp [applyOp]
+
+/-- … so is removing it … -/
+theorem C14_empty_section_remove (c : IniCfg) (ini : Ini) (k : String) :
+    applyOp c ini (.remove "" k) = .error .missing := by
+  simp [applyOp]
+
+/-- … and so is adding it (no section without a name is created) -/
+theorem C14_empty_section_add (c : IniCfg) (ini : Ini) (k v : String) :
+    applyOp c ini (.add "" k v) = .error .missing := by
+  simp [applyOp]
 
 /-- a `[Variables]` entry is not an item of another section: when the section's own keys do not contain `k`, the item does not exist
     there - whatever `[Variables]` holds (so overriding / removing it is rejected and adding it is a plain addition) -/
@@ -165,10 +181,11 @@ theorem C14_exists_mod_whitespace (ini : Ini) (s k k' : String) (h : norm k = no
   simp [hasOption, testKey, currentCfg, h]
 
 /-- **add**: a new item is appended to its section (which is created at the end when missing) and can be read back -/
-theorem C14_add_appends (ini : Ini) (s k v : String) (hs : s ≠ "Variables") (h : hasOption currentCfg ini s k = false) :
+theorem C14_add_appends (ini : Ini) (s k v : String) (hs : s ≠ "Variables") (hne : s ≠ "") (h : hasOption currentCfg ini s k = false) :
     ∃ ini', applyOp currentCfg ini (.add s k v) = .ok ini' ∧ lookup ini' s k = some v := by
   have hs' : (s == "Variables") = false := by simpa using hs
-  refine ⟨_, by simp only [applyOp, h, hs']; rfl, ?_⟩
+  have hne' : (s == "") = false := by simpa using hne
+  refine ⟨_, by simp only [applyOp, h, hs', hne']; rfl, ?_⟩
   unfold lookup
   dsimp only
   rw [find?_map_pres _ _ _ (fun p => by split <;> rfl)]
@@ -179,10 +196,11 @@ theorem C14_add_appends (ini : Ini) (s k v : String) (hs : s ≠ "Variables") (h
     simp [List.find?_append, find?_of_not_any hany, assocGet_assocSet]
 
 /-- **remove**: the item is gone afterwards -/
-theorem C14_remove_removes (ini : Ini) (s k : String) (hs : s ≠ "Variables") (h : hasOption currentCfg ini s k = true) :
+theorem C14_remove_removes (ini : Ini) (s k : String) (hs : s ≠ "Variables") (hne : s ≠ "") (h : hasOption currentCfg ini s k = true) :
     ∃ ini', applyOp currentCfg ini (.remove s k) = .ok ini' ∧ lookup ini' s k = none := by
   have hs' : (s == "Variables") = false := by simpa using hs
-  simp only [applyOp, h, hs', Bool.not_true, Bool.false_eq_true, if_false]
+  have hne' : (s == "") = false := by simpa using hne
+  simp only [applyOp, h, hs', hne', Bool.not_true, Bool.or_self, Bool.false_eq_true, if_false]
   split
   · refine ⟨_, rfl, ?_⟩
     unfold lookup
@@ -233,14 +251,16 @@ theorem C14_other_sections_untouched (ini ini' : Ini) (op : Op) (s' : String) (h
     split at h
     · cases h
     · split at h
-      · cases h; rfl
       · cases h
-        dsimp only
-        rw [find?_secmap_ne _ _ _ (fun kvs => assocSet kvs (norm k) v) hs]
-        split
-        · rfl
-        · have : ¬ s = s' := fun h' => hs h'.symm
-          simp [List.find?_append, this]
+      · split at h
+        · cases h; rfl
+        · cases h
+          dsimp only
+          rw [find?_secmap_ne _ _ _ (fun kvs => assocSet kvs (norm k) v) hs]
+          split
+          · rfl
+          · have : ¬ s = s' := fun h' => hs h'.symm
+            simp [List.find?_append, this]
 
 /-- a sequence of operations is the sequence of single edits (any length): `applyOps` is the left fold of `applyOp` -/
 theorem C14_sequence (ini : Ini) (ovs ads : List Op) :
@@ -372,14 +392,20 @@ theorem loop1_step (cadd cov : List OvRec) (ini : Ini) (hnv : ∀ p ∈ ini.sect
   | add s k v => simp [isEdit] at ho
   | override s k v =>
     rw [apply_overrides_loop1]
+    by_cases hne : s = ""
+    · subst hne
+      simp [toOv, applyOp, errMap]
     by_cases h : hasOption currentCfg ini s k = true
     · by_cases hs : s = "Variables"
       · subst hs
         simp [toOv, hasOptionR, wrap, applyOp, setValueR, andThen, h]
-      · simp [toOv, hasOptionR, wrap, applyOp, setValueR, andThen, h, hs]
+      · simp [toOv, hasOptionR, wrap, applyOp, setValueR, andThen, h, hs, hne]
     · simp [toOv, hasOptionR, wrap, applyOp, h, errMap]
   | remove s k =>
     rw [apply_overrides_loop1]
+    by_cases hne : s = ""
+    · subst hne
+      simp [toOv, applyOp, errMap]
     by_cases h : hasOption currentCfg ini s k = true
     · by_cases hs : s = "Variables"
       · subst hs
@@ -387,7 +413,8 @@ theorem loop1_step (cadd cov : List OvRec) (ini : Ini) (hnv : ∀ p ∈ ini.sect
           filter_ne_variables _ hnv]
         exact ite_self _
       · simp only [toOv, hasOptionR, wrap, applyOp, h, removeOptionR, removeSectionR, sectionKeysR,
-          length_int_beq_zero, hs, beq_iff_eq, if_false, if_true, Option.isNone_none, Bool.not_true]
+          length_int_beq_zero, hs, hne, beq_iff_eq, bne_iff_ne, ne_eq, not_false_eq_true, if_false, if_true,
+          Bool.not_true, Bool.or_false]
         split <;> simp_all
     · simp [toOv, hasOptionR, wrap, applyOp, h, errMap]
 
@@ -402,14 +429,17 @@ theorem loop2_step (cadd cov : List OvRec) (ini : Ini)
   | remove s k => simp [isAdd] at ho
   | add s k v =>
     rw [apply_overrides_loop2]
+    by_cases hne : s = ""
+    · subst hne
+      simp [toOv, applyOp, errMap]
     by_cases h : hasOption currentCfg ini s k = true
-    · simp [toOv, hasOptionR, wrap, applyOp, h, errMap]
+    · simp [toOv, hasOptionR, wrap, applyOp, h, hne, errMap]
     · by_cases hs : s = "Variables"
       · subst hs
         simp [toOv, hasOptionR, wrap, applyOp, setValueR, andThen, h]
       · by_cases hsec : (ini.sections.any fun p => p.1 == s) = true
-        · simp [toOv, hasOptionR, wrap, applyOp, setValueR, andThen, h, hs, hasSectionR, hsec]
-        · simp [toOv, hasOptionR, wrap, applyOp, setValueR, andThen, h, hs, hasSectionR, hsec, addSectionR]
+        · simp [toOv, hasOptionR, wrap, applyOp, setValueR, andThen, h, hs, hne, hasSectionR, hsec]
+        · simp [toOv, hasOptionR, wrap, applyOp, setValueR, andThen, h, hs, hne, hasSectionR, hsec, addSectionR]
 
 theorem no_variables_step (ini ini' : Ini) (op : Op) (hnv : ∀ p ∈ ini.sections, p.1 ≠ "Variables")
     (h : applyOp currentCfg ini op = .ok ini') : ∀ p ∈ ini'.sections, p.1 ≠ "Variables" := by
@@ -447,17 +477,19 @@ theorem no_variables_step (ini ini' : Ini) (op : Op) (hnv : ∀ p ∈ ini.sectio
     split at h
     · cases h
     · split at h
-      · cases h; exact hnv
-      · rename_i hs
-        cases h
-        apply hmap
-        · intro p; split <;> rfl
-        · split
-          · exact hnv
-          · intro p hp
-            rcases List.mem_append.1 hp with hp | hp
-            · exact hnv p hp
-            · simp at hp; subst hp; simpa using hs
+      · cases h
+      · split at h
+        · cases h; exact hnv
+        · rename_i hs
+          cases h
+          apply hmap
+          · intro p; split <;> rfl
+          · split
+            · exact hnv
+            · intro p hp
+              rcases List.mem_append.1 hp with hp | hp
+              · exact hnv p hp
+              · simp at hp; subst hp; simpa using hs
 
 theorem loop2_all (cadd cov : List OvRec) (ads : List Op) (had : ∀ o ∈ ads, isAdd o = true) (ini : Ini) :
     apply_overrides_loop2 hasOptionR hasSectionR sectionKeysR removeOptionR removeSectionR addSectionR setValueR cadd (wrap ini) cov (ads.map toOv) =
@@ -507,6 +539,17 @@ theorem C14_code_apply_overrides (ini : Ini) (ovs ads : List Op)
     simp only [bind, Except.bind]
     rw [loop2_all _ _ _ had]
     rfl
+
+open Atsim.Gen.Logic Atsim.IniOps in
+/-- **code tie (no section without a name)**: when the first override or removal names the item `:KEY` (empty section name) the code refuses with
+    `ConfigOverrideException` - whatever the file holds, whatever follows in the list and whatever the additions are (no side condition is needed: the refusal
+    happens before anything is looked up) -/
+theorem C14_code_empty_section (ini : Ini) (k v : String) (rest ads : List OvRec) :
+    apply_overrides hasOptionR hasSectionR sectionKeysR removeOptionR removeSectionR addSectionR setValueR (wrap ini) (toOv (.override "" k v) :: rest) ads
+      = .error OvErr.missing ∧
+    apply_overrides hasOptionR hasSectionR sectionKeysR removeOptionR removeSectionR addSectionR setValueR (wrap ini) (toOv (.remove "" k) :: rest) ads
+      = .error OvErr.missing := by
+  constructor <;> (rw [apply_overrides, apply_overrides_loop1]; simp [toOv])
 
 open Atsim.IniOps in
 /-- the hypothesis of the tie is an invariant: the reader never creates a section called `Variables`, and no operation does -/
